@@ -269,7 +269,13 @@ class STIXPatternVisitorForSTIX2():
                 break
             next = flat_list[i+1]
             if isinstance(next, TerminalNode):
-                property_path.append(self.instantiate("ListObjectPathComponent", current.property_name, next.getText()))
+                property_path.append(
+                    self.instantiate(
+                        "ListObjectPathComponent",
+                        current.property_name if isinstance(current, BasicObjectPathComponent) else str(current),
+                        next.getText(),
+                    ),
+                )
                 i += 2
             elif isinstance(next, IntegerConstant):
                 property_path.append(
